@@ -382,6 +382,16 @@ class Koyama(Sub):
             sub = np.asarray(P.omega.DiscreteKoyama(sigma=s, l=l, length=N, lp=lp).calculate(k[idx].copy()))
         if sub.shape != idx.shape or np.any(np.abs(sub - om[idx]) > 8 * EPS * N * np.abs(om[idx])):
             out.fail(sig + 'not-independent-of-other-k', 'omega(k_i) depends on which other k are in the array')
+        # integer-typed k (whole-number wavenumbers) is the same input as the floats with these values
+        ki = np.arange(1, 5, dtype=np.int64)
+        try:
+            with np.errstate(all='ignore'):
+                om_i = np.asarray(P.omega.DiscreteKoyama(sigma=s, l=l, length=N, lp=lp).calculate(ki), dtype=float)
+                om_f = np.asarray(P.omega.DiscreteKoyama(sigma=s, l=l, length=N, lp=lp).calculate(ki.astype(float)), dtype=float)
+            if om_i.shape != om_f.shape or not np.array_equal(om_i, om_f, equal_nan=True):
+                out.fail(sig + 'depends-on-argument-type', 'integer-typed k gives different values than the same wavenumbers as floats')
+        except (ValueError, TypeError) as exc:
+            out.fail(sig + 'typed-input-raises', 'DiscreteKoyama.calculate raised %s: %s for an integer-typed k array' % (type(exc).__name__, exc))
         # scaling (power of two: exact up to the root solve, which sees identical numbers)
         with np.errstate(all='ignore'):
             sc = np.asarray(P.omega.DiscreteKoyama(sigma=2 * s, l=2 * l, length=N, lp=2 * lp).calculate(k * 0.5))
@@ -505,6 +515,14 @@ class NFJC(Sub):
                 sub = np.asarray(cls(length=N, l=l).calculate(k[idx].copy()))
                 if sub.shape != idx.shape or np.any(np.abs(sub - om[idx]) > 1e-12 * N):
                     out.fail(sig + 'not-independent-of-other-k', 'omega(k_i) depends on which other k are in the array')
+                try:
+                    ki = np.arange(1, 5, dtype=np.int64)
+                    om_i = np.asarray(cls(length=N, l=l).calculate(ki), dtype=float)
+                    om_f = np.asarray(cls(length=N, l=l).calculate(ki.astype(float)), dtype=float)
+                    if om_i.shape != om_f.shape or not np.array_equal(om_i, om_f, equal_nan=True):
+                        out.fail(sig + 'depends-on-argument-type', 'integer-typed k gives different values than the same wavenumbers as floats')
+                except (ValueError, TypeError) as exc:
+                    out.fail(sig + 'typed-input-raises', 'NFJC.calculate raised %s: %s for an integer-typed k array' % (type(exc).__name__, exc))
                 # only k*l can matter for a chain whose single length scale is l
                 sc = np.asarray(cls(length=N, l=2.0 * l).calculate(k * 0.5))
             if np.any(np.abs(sc - om) > 1e-9 * N):
